@@ -17,11 +17,48 @@ NOT_DECIDED = "`returns the object most recently placed` over histories (needs d
 MUTATORS = ("setdefault", "__setitem__", "update", "pop", "clear")
 
 
+def _fresh_locals(fn):
+    """locals that only ever hold a list/dict built in this function (split(), list(), a display, a slice): mutating them
+    is not a mutation of the store"""
+    defs = {}
+    for x in ast.walk(fn):
+        if isinstance(x, ast.Assign) and len(x.targets) == 1 and isinstance(x.targets[0], ast.Name):
+            defs.setdefault(x.targets[0].id, []).append(x.value)
+        elif isinstance(x, (ast.For, ast.comprehension)):
+            for t in ast.walk(x.target):
+                if isinstance(t, ast.Name):
+                    defs.setdefault(t.id, []).append(None)
+    params = {a.arg for a in fn.args.args + fn.args.kwonlyargs}
+
+    def fresh(v):
+        if v is None:
+            return False
+        if isinstance(v, (ast.List, ast.Dict, ast.ListComp, ast.DictComp)):
+            return True
+        if isinstance(v, ast.Name) and v.id in out:
+            return True
+        if isinstance(v, ast.Call) and (call_name(v) in ("list", "dict", "sorted") or
+                                        (isinstance(v.func, ast.Attribute) and v.func.attr in ("split", "rsplit", "splitlines", "copy"))):
+            return True
+        if isinstance(v, ast.Subscript) and isinstance(v.slice, ast.Slice):
+            return fresh(v.value) or (isinstance(v.value, ast.Name) and v.value.id in out)
+        return False
+    out = set()
+    for _ in range(3):
+        for name, vs in defs.items():
+            if name not in params and vs and all(fresh(v) for v in vs):
+                out.add(name)
+    return out
+
+
 def _mutation_nodes(V):
     out = []
+    fresh = _fresh_locals(V.fn)
     for n in V.cfg.nodes:
         for x in V.cfg.walk_node(n):
             if isinstance(x, ast.Call) and isinstance(x.func, ast.Attribute) and x.func.attr in MUTATORS:
+                if isinstance(x.func.value, ast.Name) and x.func.value.id in fresh:
+                    continue
                 out.append((n, x))
             elif isinstance(x, ast.Subscript) and isinstance(x.ctx, (ast.Store, ast.Del)):
                 out.append((n, x))
@@ -75,7 +112,16 @@ def check(ctx):
         # T1-empty
         if name in ("add", "addNode"):
             creators = [mn for mn, mx in muts if "Node(" in src(mn.ast)]
-            emp = [t for t in cfg.nodes if t.kind == "test" and ("all(levels)" in src(t.ast.test) or src(t.ast.test) == "not level")]
+            def _is_empty_test(t):
+                e = t.ast.test
+                if isinstance(e, ast.UnaryOp) and isinstance(e.op, ast.Not):
+                    e = e.operand
+                if src(t.ast.test) == "not level":
+                    return True
+                if isinstance(e, ast.Call) and call_name(e) == "all" and len(e.args) == 1:
+                    return ".split('.')" in src(V.sym(e.args[0], t)) or src(e.args[0]) == "levels"
+                return False
+            emp = [t for t in cfg.nodes if t.kind == "test" and _is_empty_test(t)]
             V.need(emp, "empty-segment test in Store.%s" % name)
             ok = any(V.dominated(creators, [t]) and not (set(V.ids(creators)) & cfg.reachable(cfg.entry.id, removed_nodes=[t.id]))
                      and any(V.dominated_by_edge([r], t, "T") for r in raises) and
@@ -107,9 +153,12 @@ def check(ctx):
         ctx.check(ok, "T7-share-leaf", f, "Store.%s: every descent step tests isinstance(.., Share)" % name,
                   "the path walk indexes into a Share as if it were a node: a lookup below a share returns a field value or "
                   "raises TypeError, and an add below a share would turn it into a node")
-        norm = [n for n in ast.walk(f) if isinstance(n, ast.Assign) and dotted(n.targets[0]) == "levels"]
-        ok = bool(norm) and src(norm[0].value).replace('"', "'").replace(" ", "") in (
-            "name.strip('.').split('.')", "share.name.strip('.').split('.')")
+        # the list the walk iterates is <name>.strip('.').split('.'), whatever local(s) carry it
+        W = FuncView(ctx, f)
+        norm = [n for n in W.cfg.nodes if isinstance(n.ast, ast.Assign) and len(n.ast.targets) == 1 and dotted(n.ast.targets[0]) == "levels"]
+        val = src(W.sym(norm[0].ast.value, norm[0])).replace('"', "'").replace(" ", "") if norm else ""
+        ok = bool(norm) and val in ("name.strip('.').split('.')", "share.name.strip('.').split('.')")
+        norm = [n.ast for n in norm]
         ctx.check(ok, "T7-normalise", f, "Store.%s: levels = %s" % (name, src(norm[0].value) if norm else "?"),
                   "leading/trailing dots must not change which entry a path denotes")
     for name in ("add", "addNode"):
